@@ -91,6 +91,7 @@ def run(ctx, prog):
     if len(wr) != 1 or not isinstance(kw(wr[0], 'points'), ast.Name):
         raise AnalysisError('write call with a named `points` argument not found in the loop')
     res = kw(wr[0], 'points').id
+    idx_local = kw(wr[0], 'index').id if isinstance(kw(wr[0], 'index'), ast.Name) else None
     passed = kw(ucall, 'trace_object') or (ucall.args[0] if ucall.args else None)
     ctx.check(isinstance(passed, ast.Name) and passed.id == trace_var, 'C20-D2', f'{run_f.key}::{norm(ucall)[:100]}',
               f'the user function receives `{norm(passed) if passed is not None else None}`, not the loop trace object `{trace_var}`',
@@ -101,7 +102,7 @@ def run(ctx, prog):
         if k == 'store':
             return True
         if k == 'lstore':
-            return name in (res, '$user')
+            return name in (res, '$user', idx_local)
         if k == 'call':
             return name == 'USER' or 'write' in name or 'error_occur' in name
         return k == 'raise'
@@ -183,13 +184,21 @@ def run(ctx, prog):
     # index = counter at iteration start: affine  synchronized_counter - (#increments before the write)
     okidx = True
     det = ''
+    # a single-assignment local handed over as the index is read where it is defined: the increments counted are those before
+    # that definition (statement order inside one iteration)
+    read_at = w
+    if isinstance(idx, ast.Name):
+        defs = [n for n in ast.walk(loop) if isinstance(n, ast.Assign) and len(n.targets) == 1 and isinstance(n.targets[0], ast.Name) and n.targets[0].id == idx.id]
+        others = [n for n in ast.walk(loop) if isinstance(n, ast.Name) and n.id == idx.id and isinstance(n.ctx, ast.Store)]
+        if len(defs) == 1 and len(others) == 1:
+            idx, read_at = defs[0].value, defs[0]
     for p in classes['data']:
         k = 0
         for e in p.events:
+            if is_write(e) or (read_at is not w and e[0] == 'lstore' and e[1] == idx_local):
+                break
             if is_sync(e):
                 k += 1
-            if is_write(e):
-                break
         a = astutil.affine(idx) if idx is not None else None
         want = {'self.synchronized_counter': 1, '': -k}
         if a is None or {x: v for x, v in a.items() if v} != {x: v for x, v in want.items() if v}:
